@@ -220,8 +220,10 @@ def enums_tla(S):
         if t["kind"] != "enum":
             continue
         prim = t["enc"] if t["enc"] in PRIMS else types[t["enc"]]["prim"]
-        w = {"char": 1, "int8": 1, "uint8": 1, "int16": 2, "uint16": 2}.get(prim, 4)
-        vals = [{"name": v["name"], "code": ord(v["value"]) if prim == "char" else int(v["value"])} for v in t["values"]]
+        w = {"char": 1, "int8": 1, "uint8": 1, "int16": 2, "uint16": 2, "int32": 4, "uint32": 4}.get(prim, 8)
+        # representation only: the value's w little-endian bytes (two's complement)
+        vals = [{"name": v["name"], "code": list((ord(v["value"]) if prim == "char" else int(v["value"])).to_bytes(w, "little", signed=prim.startswith("int")))}
+                for v in t["values"]]
         out.append({"name": t["name"], "w": w, "values": vals})
     return sch.tla(out)
 
